@@ -1205,10 +1205,6 @@ func (fx *FnExec) evalCallC(x *ast.CallExpr, env *evalEnv) (cval, error) {
 				if _, isConst := d.X.(*ssa.Const); isConst || seen[d.X] {
 					continue
 				}
-				// only the defining occurrence (the identifier is being declared/assigned there)
-				if di.Obj != nil && di.Obj.Pos() != di.Pos() {
-					continue
-				}
 				seen[d.X] = true
 				vals = append(vals, d.X)
 			}
@@ -1248,6 +1244,9 @@ func (fx *FnExec) evalCallC(x *ast.CallExpr, env *evalEnv) (cval, error) {
 			return cval{S: "(s.len " + a.S + ")", Sort: "Int", T: types.Typ[types.Int]}, nil
 		case "Str":
 			return cval{S: "(slen " + a.S + ")", Sort: "Int", T: types.Typ[types.Int]}, nil
+		}
+		if a.T == nil {
+			return cval{}, fmt.Errorf("len of a value of unknown type")
 		}
 		if mt, ok := a.T.Underlying().(*types.Map); ok {
 			var r string
